@@ -320,8 +320,17 @@ let fam_c15 tier r =
     { sc_world = world_with [ b_exit 0 ]; sc_ops = [ new_ (); start (c 0); wait (-1); destroy () ] };
     { sc_world = world_with [ b_exit 0 ];
       sc_ops = [ new_ (); start ~opts:{ default_options with o_fork = true } ~child:[ SDestroy (z 0) ] ~script:[ a_sleep 10; a_exit 0 ] None; destroy () ] } ] in
+  let restart = List.concat_map (fun (_, script) ->
+      List.concat_map (fun (dl1, dl2) ->
+          List.map (fun bad ->
+              { sc_world = world_with [ script ];
+                sc_ops = [ new_ (); start ~opts:{ default_options with o_deadline = z dl1; o_stop = stop3 (sa 3 0) (sa 0 0) (sa 0 0) } bad;
+                           start ~opts:{ default_options with o_deadline = z dl2 } (c 0); sleep 100; destroy () ] })
+            [ argv [ "nonexistent" ]; argv [ "/w" ]; None ])
+        [ (40, 0); (40, 300); (0, 40) ]) stop_behaviours in
   let n = if tier = "quick" then 300 else 10000 in
   [ { name = "C15/policies-x-deadlines-x-behaviours"; exhaustive = true; scs = grid @ states };
+    { name = "C15/failed-start-then-restart"; exhaustive = true; scs = restart };
     { name = "C15/random-histories"; exhaustive = false; scs = List.init n (fun k -> rand_history ~io:(k mod 2 = 0) (split r k)) } ]
 
 (* ---- C08: deadlines ---- *)
@@ -381,6 +390,9 @@ let fam_c09 tier r =
     ("out-eof-read", [ a_close 1; a_sleep long; a_exit 0 ], [ `Read 1 ]);
     ("stdin-full", [ a_sleep long; a_exit 0 ], [ `Write 65536 ]);
     ("late-out", [ a_sleep 40; a_write 1 1; a_sleep long; a_exit 0 ], []);
+    ("stdin-full-then-child-closes", [ a_sleep 5; a_close 0; a_sleep long; a_exit 0 ], [ `Write 65536 ]);
+    ("stdin-partly-filled-child-closes", [ a_sleep 5; a_close 0; a_sleep long; a_exit 0 ], [ `Write 100 ]);
+    ("stdin-full-child-exits", [ a_sleep 5; a_exit 2 ], [ `Write 65536 ]);
   ] in
   let optss = [ { default_options with o_err = rd 1 }; default_options; { default_options with o_err = rd 4 };
                 { default_options with o_discard = true }; { default_options with o_err = rd 1; o_nonblocking = true } ] in
@@ -463,7 +475,14 @@ let fam_c11 tier r =
                @ [ start ~opts (c 0); pid (); destroy (); destroy ~h:1 () ] } in
   let huge = [ { sc_world = world_with ~rlimit:(-1) [ b_exit 0 ]; sc_ops = [ new_ (); start (c 0); destroy () ] };
                { sc_world = world_with ~rlimit:2000000 [ b_exit 0 ]; sc_ops = [ new_ (); start (c 0); destroy () ] } ] in
+  let raised = List.concat_map (fun (l1, l2) ->
+      List.map (fun cx ->
+          { sc_world = world_with ~rlimit:l1 [ [ a_sleep 10; a_exit 0 ]; [ a_sleep 10; a_exit 0 ] ];
+            sc_ops = [ new_ (); new_ ~h:1 (); start (c 0); OS (SUserRlimit (z l2)); OS (SUserOpen (z (l1 + 3), z 900, cx));
+                       OS (SUserOpen (z (l2 - 1), z 901, false)); start ~h:1 (c 1); pid ~h:1 (); destroy (); destroy ~h:1 () ] })
+        [ false; true ]) [ (16, 64); (24, 40); (64, 256) ] in
   [ { name = "C11/random-descriptor-tables"; exhaustive = false; scs = List.init n one };
+    { name = "C11/limit-raised-between-starts"; exhaustive = true; scs = raised };
     { name = "C11/huge-limit"; exhaustive = true; scs = huge } ]
 
 (* ---- C13 through start ---- *)
@@ -576,6 +595,14 @@ let fam_c16 tier r =
               { default_options with o_err = rd 4; o_deadline = z 30 }; { default_options with o_fork = true };
               { default_options with o_input_data = true; o_input_size = z 20 } ])
         [ ([], []); ([ 0; 0; 5 ], []); ([], [ 0; 0; -5 ]) ]) (Array.to_list io_behaviours) in
+  let quiet = List.concat_map (fun nbytes ->
+      List.concat_map (fun nb ->
+          List.map (fun dl ->
+              let script = [ a_write 1 nbytes; a_sleep 300; a_write 2 1; a_exit 0 ] in
+              let opts = { default_options with o_err = rd 1; o_deadline = z dl; o_nonblocking = nb } in
+              { sc_world = world_with [ script ];
+                sc_ops = [ new_ (); start ~opts (c 0); drain (); wait 1000; destroy () ] })
+            [ 0; 50 ]) [ false; true ]) [ 100; 4095; 4096; 4097; 8192; 12288 ] in
   let n = if tier = "quick" then 200 else 8000 in
   let faults = List.init n (fun k ->
       let r = split r k in
@@ -584,6 +611,7 @@ let fam_c16 tier r =
       let ncalls = max 1 (int_of_z (run_model base).r_last.w_calls) in
       { base with sc_world = world_with ~faults:[ (rint r ncalls, pick r [ 12; 4; 24 ]) ] [ script ] }) in
   [ { name = "C16/drain-x-sinks-x-stderr-x-deadlines"; exhaustive = true; scs = grid };
+    { name = "C16/exact-buffer-then-quiet"; exhaustive = true; scs = quiet };
     { name = "C16/run_ex-run"; exhaustive = true; scs = run_ex };
     { name = "C16/run_ex-single-faults"; exhaustive = false; scs = faults } ]
 
@@ -607,7 +635,16 @@ let fam_c17 tier r =
             [ ("eager", [ a_readall 0; a_readall 0; a_readall 0; a_readall 0; a_exit 0 ]); ("never", [ a_sleep 50; a_exit 0 ]) ])
         [ false; true ]) sizes in
   ignore r; ignore tier;
+  let small = List.concat_map (fun cap ->
+      List.concat_map (fun size ->
+          List.concat_map (fun nb ->
+              List.map (fun (_, script) ->
+                  { sc_world = world_with ~lat:[ (-1, cap) ] [ script ];
+                    sc_ops = [ new_ (); start ~opts:{ default_options with o_input_data = true; o_input_size = z size; o_nonblocking = nb } (c 0); pid (); sleep 100; wait 1000; destroy () ] })
+                [ ("eager", [ a_readall 0; a_readall 0; a_readall 0; a_readall 0; a_exit 0 ]); ("never", [ a_sleep 50; a_exit 0 ]) ])
+            [ false; true ]) [ 1; 4096; 8192; 8193; 32768; 65536 ]) [ 4096; 8192; 16384 ] in
   [ { name = "C17/pipe-states-x-sizes"; exhaustive = true; scs = grid };
+    { name = "C17/start-up-input-with-small-pipes"; exhaustive = true; scs = small };
     { name = "C17/start-up-input-sizes"; exhaustive = true; scs = input } ]
 
 let fam_c14 tier r =
@@ -617,7 +654,18 @@ let fam_c14 tier r =
 
 let fam_c20 tier r =
   let n = if tier = "quick" then 600 else 20000 in
-  [ { name = "C20/multi-handle-histories"; exhaustive = false; scs = List.init n (fun k -> rand_history (split r (k + 77777))) } ]
+  let cat = [ a_readall 0; a_readall 0; a_readall 0; a_write 1 3; a_exit 0 ] in
+  let siblings = List.concat_map (fun second ->
+      List.map (fun order ->
+          let s0 = start ~h:0 (c 0) and s1 = second in
+          { sc_world = world_with [ cat; [ a_sleep 400; a_exit 0 ] ];
+            sc_ops = [ new_ ~h:0 (); new_ ~h:1 () ] @ (if order then [ s0; s1 ] else [ s1; s0 ])
+                     @ [ write ~h:0 5; close ~h:0 0; sleep 50; wait ~h:0 100; read ~h:0 1 10; kill ~h:1 (); wait ~h:1 1000; destroy ~h:0 (); destroy ~h:1 () ] })
+        [ true; false ])
+      [ start ~h:1 (c 1); start ~h:1 ~opts:{ default_options with o_fork = true } ~script:[ a_sleep 400; a_exit 0 ] None;
+        start ~h:1 ~opts:{ default_options with o_err = rd 1; o_nonblocking = true } (c 1) ] in
+  [ { name = "C20/multi-handle-histories"; exhaustive = false; scs = List.init n (fun k -> rand_history (split r (k + 77777))) };
+    { name = "C20/siblings-see-their-own-eof"; exhaustive = true; scs = siblings } ]
 
 let families (prop : string) (tier : string) (seed : int) : fam list =
   let r = mk_rng (seed + Hashtbl.hash prop) in
